@@ -5,6 +5,20 @@ ROOT = os.path.dirname(os.path.abspath(__file__))
 
 # id -> dict(text, note, technique, design_ref, engine)
 CLAIMED = {
+ "C18": dict(
+    text="Lean 4 theorems on an x86-TSO model of cds_list_{add,add_tail,del,replace}_rcu and the hlist equivalents executed store by store "
+         "by one updater (plain stores and the publishing store through a FIFO store buffer, flushed at arbitrary times) against any "
+         "number of readers loading `next` from memory inside sections: forward_chain_inv, traversal_terminates (measure), "
+         "visits_in_order, resident_visited_exactly_once, visited_was_member, visited_initialised, never_touches_freed (GpSpec), "
+         "memory_is_sequential_state; necessity witnesses (publish-before-init, del poisoning next) by decide. Floor = target. Tie: the "
+         "real rculist.h/rcuhlist.h compiled with -fsanitize=thread against our own access callbacks (harness/rt/vrt_tsan.c) so that "
+         "every plain next/prev store is an event and a scheduling point; updater parked between any two stores (random, PCT, "
+         "one-preemption sweep); traversal oracles (garbage/missed/phantom/uninitialised/quarantine).",
+    note="Trusted: Lean kernel; x86-TSO; one updater at a time (API contract); GpSpec for reclamation (harness-level grace period); "
+         "gcc's -fsanitize=thread instrumentation reporting every plain access; compiler ordering of the release store checked by "
+         "presence/kind/position only.",
+    technique="Lean 4 inductive-invariant proof on a TSO transition system (single writer, FIFO buffer) + trace refinement at plain-access granularity",
+    design_ref="§4 C18", engine="rculist"),
  "C08": dict(
     text="Lean 4 theorem C08_full_holds: for every sequence of cds_lfht operations (add, add_unique, add_replace, replace, del, lookup, "
          "next_duplicate, first/next, count_nodes, resize, destroy) on any hashes/keys and every accepted (init,min,max,flags,allocator) "
